@@ -42,9 +42,10 @@ def tail_chain(rng, depth):
         closers = OPEN[o] + closers
         if rng.random() < 0.3:
             body += rng.choice("v&~ßƒɖ")  # a modifier directly in front of the next structure
-    last = rng.choice(["", "1", "+", "`ab", "«ab", "»12", "‛xy", "\\a", "kA", "X", "x", "v+", "₌+-", "→a"])
+    last = rng.choice(["", "1", "+", "`ab", "«ab", "»12", "‛xy", "\\a", "kA", "X", "x", "v+", "₌+-", "→a",
+                       "`a\\n", "`a\\`", "`\\\\", "`\\`\\n", "`a b\\t", "«a\\", "»1\\"])
     body += gens.well_formed(rng, 1) + last
-    strcloser = {"`ab": "`", "«ab": "«", "»12": "»"}.get(last, "")
+    strcloser = {"`": "`", "«": "«", "»": "»"}.get(last[:1], "") if last[:1] in "`«»" and len(last) > 1 else ""
     return body + strcloser + closers, len(strcloser) + len(closers)
 
 
@@ -89,6 +90,17 @@ def run(ctx, widen=False):
                     progs.append(closed)
         ctx.bump("exhaustive short programs", cnt)
         ctx.exhaustive = True
+    # every short string body over the escape-relevant characters, with and without its closing delimiter
+    for d in "`«»":
+        for L in range(0, 5 if thorough else 4):
+            for t in itertools.product(["\\", d, "a", "n", "]"], repeat=L):
+                body = "".join(t)
+                toks = lexer.tokenise(d + body + d + "+")
+                if len(toks) == 2 and toks[1].value == "+" and toks[1].name == lexer.TokenType.GENERAL and toks[0].value:   # the closer really closes this literal
+                    closed = "[" + d + body + d + "]"
+                    for drop in (1, 2):
+                        ctx.check("truncation", {"closed": closed, "drop": drop})
+                    progs.append(closed); progs.append(closed[:-2])
     ctx.sample({"closed": "[1(λ+;)]", "drop": 3, "truncated": "[1(λ+", "parse": vy.impl_lexparse("[1(λ+")})
     progs = list(dict.fromkeys(progs))
     lines = ["tok\t" + vy.cps(p) for p in progs] + ["lexparse\t" + vy.cps(p) for p in progs]
